@@ -226,6 +226,13 @@ def build():
     if chk in fm: defs.append(("tsig_class_ttl_checked", "bool", "true"))
     elif nochk in fm: defs.append(("tsig_class_ttl_checked", "bool", "false"))
     else: raise GenError("MessageTsig::from_message: unrecognised handling of a found TSIG record")
+    scan_all = ("letmutsection=msg.answer().map_err(|_|TsigError::ParseError)?;for_in0..2{forrecordinsection.by_ref(){"
+                "letrecord=record.map_err(|_|TsigError::ParseError)?;ifrecord.rtype()==Rtype::TSIG{returnErr(TsigError::Position);}}"
+                "section=section.next_section().map_err(|_|TsigError::ParseError)?.expect(\"answerandauthorityhaveanextsection\");}loop{")
+    scan_ar = "letmutsection=msg.additional().map_err(|_|TsigError::ParseError)?;loop{"
+    if fm.startswith(scan_all): defs.append(("tsig_scan_all_sections", "bool", "true"))
+    elif fm.startswith(scan_ar): defs.append(("tsig_scan_all_sections", "bool", "false"))
+    else: raise GenError("MessageTsig::from_message: unrecognised way to reach the additional section")
     for a, b in (("section.next()", "TsigError::Missing"), ("map_err(|_|TsigError::ParseError)?.into_record::<Tsig<_,_>>().map_err(|_|TsigError::Invalid)?", "")):
         if a not in fm: raise GenError("from_message: %s not found" % a)
 
